@@ -62,6 +62,12 @@ CLAIMED = {
         note="Does not decide that unpatched regions are copied verbatim for every patch set (C30 covers the wiring). Known finding: errors='backslashreplace' on read. " + TRUST,
         design_ref="DESIGN.md §3 C11",
     ),
+    "C12": dict(
+        technique="static analysis: per-dialect FIRST/LAST/adjacency fixpoint over the serialised grammar graph carrying layout spacing classes (own type, outermost edge ancestor, spacing_within of the immediate common parent; allow_gaps=False junctions excluded) x the default layout configuration x the dialect's ordered lexer table evaluated (regex module, first-match-wins) on concatenations of the tables' own token texts; CFG/def-use conformance of the respacing and lexer code to that model",
+        text="Decides (partial claim), exhaustively for 28 dialects, that every pair of fixed-text tokens (and every pair of keywords) which the grammar lets follow each other and the DEFAULT layout configuration asks to touch is read by the dialect's lexer table as the same two tokens once joined; and that the reflow code deletes inline whitespace only under touch-and-not-any, derives constraints from prev.spacing_after / next.spacing_before / spacing_within of the immediate common parent, never strips a newline next to a comment, and that the lexer is first-match-wins with DOTALL.",
+        note="No SQL is lexed/parsed/linted through sqlfluff: the dialects' declared pattern strings are applied to strings built from the tables themselves. Does not decide non-default configurations, three-token effects, touch pairs with a variable-text side (counted: 8 409), rules that build text (CV10, ST08, CP/CV rewrites), rebreak/reindent, fix_even_unparsable. 133 known findings = 17 pairs x the dialects they occur in (LT01 glues '- -' into a comment, '~ ~', ': :', ': ::', ': :=', '? ::', '@ @', '~ *', the mysql '~' terminator family, exasol dots, oracle MULTISET UNION, postgres VARIADIC ARRAY). " + TRUST,
+        design_ref="DESIGN.md §9.8",
+    ),
     "C13": dict(
         technique="static analysis: must-guard (dominance of tree adoption by the validity component) and def-use/typestate of the validation request through apply_fixes' recursion",
         text="Decides that the fix loop only adopts a tree whose apply_fixes validity component was true, that every structure-changing edit kind and "
@@ -254,6 +260,5 @@ CLAIMED = {
 }
 
 NOT_APPLICABLE = {
-    "C12": "token gluing depends on adjacent token texts and each dialect's ordered regex table; needs language-level reasoning over 28 lexers (DESIGN §5)",
     "C16": "query-result equivalence under rewriting needs execution or a SQL semantics; no static counterpart in reach (DESIGN §5)",
 }
